@@ -1,6 +1,7 @@
 package world
 
 import (
+	coreexecutor "github.com/evstack/ev-node/core/execution"
 	"context"
 	"crypto/sha256"
 	"encoding/hex"
@@ -74,6 +75,13 @@ type ExecDouble struct {
 	// FinalGate, when non-nil, is received from before SetFinal proceeds. Like a remote execution
 	// layer, a gated call honours its context: it fails with ctx.Err() when the context ends first.
 	FinalGate chan struct{}
+	// Inner, when set, is a real execution layer (the reference key-value executor): the double keeps its gates,
+	// scripted failures, trace records, mempool and root book, but state roots come from Inner and Inner's own
+	// durable state decides what a (re-)execution does.
+	Inner coreexecutor.Executor
+	// Reopen, when set, is called whenever the node starts: it returns the Inner to use from then on (a new
+	// executor instance on the same database - the execution layer restarts with the node).
+	Reopen func() coreexecutor.Executor
 	// TxsGate, when non-nil, is received from before GetTxs proceeds (a mempool query that stalls); honours the context.
 	TxsGate chan struct{}
 	// AtGate, when set, is called when a call starts waiting at its gate ("exec" / "final" / "gettxs").
@@ -112,6 +120,15 @@ func (e *ExecDouble) ShareRoots(o *ExecDouble) { e.book = o.book }
 
 func (e *ExecDouble) InitChain(ctx context.Context, genesisTime time.Time, initialHeight uint64, chainID string) ([]byte, uint64, error) {
 	e.tr.Emit("ExecInit", F{"node": e.node, "ih": int(initialHeight)})
+	if e.Inner != nil {
+		root, mb, err := e.Inner.InitChain(ctx, genesisTime, initialHeight, chainID)
+		if err == nil {
+			if _, known := e.book.get(root); !known {
+				e.book.put(root, []string{})
+			}
+		}
+		return root, mb, err
+	}
 	return append([]byte(nil), e.genesis...), 1 << 20, nil
 }
 
@@ -164,6 +181,22 @@ func (e *ExecDouble) ExecuteTxs(ctx context.Context, txs [][]byte, blockHeight u
 		e.mu.Unlock()
 		e.tr.Emit("ExecTxs", F{"node": e.node, "h": int(blockHeight), "txs": Strs(ids), "prev": Strs(prevIDs), "prevok": known, "ok": false})
 		return nil, 0, errors.New("execdouble: scripted execution failure")
+	}
+	if e.Inner != nil {
+		e.mu.Unlock()
+		root, mb, err := e.Inner.ExecuteTxs(ctx, txs, blockHeight, timestamp, prevStateRoot)
+		if err != nil {
+			e.tr.Emit("ExecTxs", F{"node": e.node, "h": int(blockHeight), "txs": Strs(ids), "prev": Strs(prevIDs), "prevok": known, "ok": false})
+			return nil, 0, err
+		}
+		if known {
+			nl := make([]string, 0, len(prevIDs)+len(ids))
+			nl = append(nl, prevIDs...)
+			nl = append(nl, ids...)
+			e.book.put(root, nl)
+		}
+		e.tr.Emit("ExecTxs", F{"node": e.node, "h": int(blockHeight), "txs": Strs(ids), "prev": Strs(prevIDs), "prevok": known, "ok": true})
+		return root, mb, nil
 	}
 	hsh := sha256.New()
 	hsh.Write(prevStateRoot)
@@ -231,6 +264,12 @@ func (e *ExecDouble) SetFinal(ctx context.Context, blockHeight uint64) error {
 	}
 	e.Finals = append(e.Finals, int(blockHeight))
 	e.mu.Unlock()
+	if e.Inner != nil {
+		if err := e.Inner.SetFinal(ctx, blockHeight); err != nil {
+			e.tr.Emit("ExecFinal", F{"node": e.node, "h": int(blockHeight), "ok": false, "incl": incl})
+			return err
+		}
+	}
 	e.tr.Emit("ExecFinal", F{"node": e.node, "h": int(blockHeight), "ok": true, "incl": incl})
 	return nil
 }
